@@ -445,6 +445,28 @@ func extract(repo string, it Item) (sourceTxt, lean string, err error) {
 			k++
 		}
 		return "", "", fmt.Errorf("append call #%d not found", n)
+	case "synccalls":
+		// the functions called by the body itself, in source order, without those inside `go func() {…}()` / `go f()`
+		var names []string
+		seen := map[string]bool{}
+		var walk func(n ast.Node)
+		walk = func(n ast.Node) {
+			ast.Inspect(n, func(n ast.Node) bool {
+				switch x := n.(type) {
+				case *ast.GoStmt:
+					return false
+				case *ast.CallExpr:
+					t := norm(src(x.Fun))
+					if _, isLit := x.Fun.(*ast.FuncLit); !isLit && !seen[t] {
+						seen[t] = true
+						names = append(names, leanString(t))
+					}
+				}
+				return true
+			})
+		}
+		walk(fd.Body)
+		return fmt.Sprintf("%d calls", len(names)), "[" + strings.Join(names, ", ") + "]", nil
 	case "bodytext":
 		// the whole function body as a normalised source string
 		t := norm(src(fd.Body))
